@@ -45,6 +45,12 @@ P0 == [keep |-> FALSE, pctx |-> 0,
        rs |-> <<>>,      \* resolver call n -> "active" | "val" | "valr" | "err" | "errr"  (r: with release func)
        relc |-> <<>>,    \* resolver call n -> number of invocations of its release func
        inv |-> {}, invd |-> {},   \* invalidated calls / invalidated and certainly processed
+       \* A context change takes effect in some critical section between the call's logged start and its
+       \* logged return (pend: such calls in progress).  Resolver calls that exist at the start are
+       \* invalidated by it; a resolver call that is ENTERED while one is in progress may belong to the old
+       \* or to the new context -- the trace cannot tell (minv: "possibly invalidated"): nothing is
+       \* demanded of it, and its release while held is not held against the code.
+       minv |-> {}, pend |-> <<>>,
        due |-> {},       \* calls whose release func (if any) must have run by the next quiescent point
        refs |-> <<>>,    \* plain reference id -> [st, cb, g, ever]
        cons |-> <<>>,    \* consumer call id -> record (Wait, Resolve, ResolveWithReleased, Access)
@@ -74,7 +80,7 @@ ConsOpen(s) == {c \in DOMAIN s.cons : s.cons[c].st = "open"}
 ConsOk(s) == {c \in DOMAIN s.cons : s.cons[c].st = "ok"}
 PossiblyHeld(s) == PlainHeld(s) \cup ConsOpen(s) \cup ConsOk(s)
 SureHeld(s) == PlainHeld(s) \cup ConsOpen(s)
-               \cup {c \in ConsOk(s) : s.cons[c].kind # "resolvewr" \/ s.cons[c].val \notin s.inv}
+               \cup {c \in ConsOk(s) : s.cons[c].kind # "resolvewr" \/ s.cons[c].val \notin (s.inv \cup s.minv)}
 
 \* values Access may legitimately be looking at when a look window starts
 Window(s) == {n \in Calls(s) : IsVal(s, n) /\ s.relc[n] = 0 /\ n \notin s.invd}
@@ -115,7 +121,9 @@ PCallOp(s, id, op, cb, ref, k) ==
            ELSE Bad(s, {"Harness:release"})
       [] op \in {"setctx", "clearctx"} ->
            IF k # s.pctx
-           THEN Must([s EXCEPT !.pctx = k, !.inv = @ \cup Calls(s), !.invd = @ \cup Calls(s), !.due = @ \cup Calls(s)])
+           \* from now on the existing calls may be invalidated (minv); they certainly are when the call
+           \* has returned (PRet).  On the pinned code both events lie in one controller step.
+           THEN [s EXCEPT !.pctx = k, !.minv = @ \cup Calls(s), !.pend = (id :> Calls(s)) @@ @]
            ELSE s
       [] op \in {"wait", "resolve", "resolvewr", "access"} ->
            Bad([s EXCEPT !.cons = (id :> [NewCons(op, cb = "cb") EXCEPT !.win = Window(s)]) @@ @],
@@ -124,7 +132,12 @@ PCallOp(s, id, op, cb, ref, k) ==
 
 \* A client call returns.  res: "ok" | "nil" | "err" | "cberr" | "canceled" | other.
 PRet(s, id, res, val, err) ==
-    IF id \notin DOMAIN s.cons THEN s
+    IF id \notin DOMAIN s.cons
+    THEN IF id \in DOMAIN s.pend
+         THEN LET pre == s.pend[id] IN
+              Must([s EXCEPT !.inv = @ \cup pre, !.invd = @ \cup pre, !.due = @ \cup pre,
+                             !.pend = [i \in (DOMAIN s.pend) \ {id} |-> s.pend[i]]])
+         ELSE s
     ELSE LET c == s.cons[id] IN
     IF c.st # "open" THEN Bad(s, {"Harness:ret"})
     ELSE IF c.kind = "access"
@@ -148,7 +161,8 @@ PPanic(s, id) == Bad([s EXCEPT !.panicked = TRUE], {"Panic"})
 
 \* The harness-owned resolver is entered for the n-th time / returns.
 PEnter(s, n) ==
-    Bad([s EXCEPT !.rs = Append(@, "active"), !.relc = Append(@, 0)],
+    Bad([s EXCEPT !.rs = Append(@, "active"), !.relc = Append(@, 0),
+                  !.minv = IF DOMAIN s.pend # {} THEN @ \cup {n} ELSE @],
         If(n # Len(s.rs) + 1, {"Harness:enter"}))
 
 PLeaveZ(s, n, out, rel, zero) ==
@@ -175,7 +189,7 @@ PCbk(s, ref, res, v, e) ==
 PRel(s, n, tgt) ==
     IF ~HasRel(s, n) THEN Bad(s, {"Harness:rel"})
     ELSE Bad([s EXCEPT !.relc[n] = @ + 1],
-             If(\E r \in PlainHeld(s) : n \in s.refs[r].ever /\ n \notin s.inv, {"RelWhileHeld"})
+             If(\E r \in PlainHeld(s) : n \in s.refs[r].ever /\ n \notin (s.inv \cup s.minv), {"RelWhileHeld"})
              \cup If(\E r \in PlainHeld(s) : s.refs[r].g.r /\ (s.refs[r].g.v = n \/ s.refs[r].g.e = n), {"RelUntold"})
              \cup If(tgt = n, {"RelExposed"}))
 
@@ -279,7 +293,7 @@ RelOnce == \A n \in Calls(ps) : ps.relc[n] <= 1
 NoOverlap == Cardinality(Active(ps)) <= 1
 \* a value returned by Wait / Resolve / ResolveWithReleased is not released while the caller
 \* holds the reference, unless it was invalidated
-HeldNotRel == \A c \in ConsOk(ps) : ps.cons[c].val \in Calls(ps) /\ ps.relc[ps.cons[c].val] >= 1 => ps.cons[c].val \in ps.inv
+HeldNotRel == \A c \in ConsOk(ps) : ps.cons[c].val \in Calls(ps) /\ ps.relc[ps.cons[c].val] >= 1 => ps.cons[c].val \in (ps.inv \cup ps.minv)
 RelCbOnce == \A c \in DOMAIN ps.cons : ps.cons[c].relcb <= 1
 
 C08Names == {"RelTwice", "RelWhileHeld", "RelUntold", "RelExposed", "ExposedAfterRel", "Leak"}
